@@ -47,7 +47,7 @@ def monitor(hdr, cmd, pre, res, post, info, tconst):
     ret, calls, herr, thrown = res
     fl, arch, hk = hdr["fl"], hdr["arch"], hdr["h"]
     where = "%s/%s" % (ARCH[arch], FL[fl])
-    kind = "I" if cmd[0] in ("J", "K", "V") else cmd[0]
+    kind = "I" if cmd[0] in ("J", "K", "V", "PP", "LS", "SH", "V2") else cmd[0]
     failed = ret != 0 or thrown
     setter = kind in ("O", "X", "M")
     if failed:
@@ -59,7 +59,11 @@ def monitor(hdr, cmd, pre, res, post, info, tconst):
                         "a failed call (error %d) changed the emitter/holder state: before [%s] after [%s]" % (ret, pre, post)))
         if kind == "I" and one_of(post) != "0:0:0:0":
             out.append(("C14/%s/one-shot-state-not-cleared" % where, "after a failed instruction the one-shot state is %s" % one_of(post)))
-        if kind != "I" and kind != "B" and one_of(post) != one_of(pre):
+        if kind in ("B", "CP"):
+            # bind (also the one inside embed_const_pool) resets the inline comment even when it fails; nothing else may change
+            if one_of(post) != one_of(pre) and one_of(post) != one_of(pre)[:-1] + "0":
+                out.append(("C14/%s/%s/one-shot-state-touched" % (where, kind), "a failed %s call changed more than the inline comment of the one-shot state" % kind))
+        elif kind != "I" and one_of(post) != one_of(pre):
             out.append(("C14/%s/%s/one-shot-state-touched" % (where, kind), "a failed %s call changed the one-shot state" % kind))
         if kind != "NS":
             exp_calls = 0 if hk == 0 else 1
@@ -188,6 +192,18 @@ def run_shard(args):
             if cmd[0] == "B" and r[0] == tconst["kInvalidDisplacement"]:
                 kb = "bind refused: a pending displacement does not fit (computed by the model from the fixup formats)"
                 res["classes"][kb] = res["classes"].get(kb, 0) + 1
+            if cmd[0] == "PP":
+                key = "push/pop sreg path/%s" % ("err %d" % r[0] if failed else "ok")
+                res["classes"][key] = res["classes"].get(key, 0) + 1
+            if cmd[0] == "V2":
+                key = "evex/vex vsib-path vgatherdps {k}/%s" % ("err %d" % r[0] if failed else "ok %s bytes" % (int(post.split("sz=")[1].split()[0].split(",")[int(post.split("cur=")[1].split()[0])]) - int(pre.split("sz=")[1].split()[0].split(",")[int(pre.split("cur=")[1].split()[0])])))
+                res["classes"][key] = res["classes"].get(key, 0) + 1
+            if cmd[0] == "SH":
+                key = "shift r,imm path/%s" % ("err %d" % r[0] if failed else "ok %s bytes" % (int(post.split("sz=")[1].split()[0].split(",")[int(post.split("cur=")[1].split()[0])]) - int(pre.split("sz=")[1].split()[0].split(",")[int(pre.split("cur=")[1].split()[0])])))
+                res["classes"][key] = res["classes"].get(key, 0) + 1
+            if cmd[0] == "LS":
+                key = "a64 load/store path/%s" % ("err %d" % r[0] if failed else "ok")
+                res["classes"][key] = res["classes"].get(key, 0) + 1
             if cmd[0] == "V":
                 key = "vsib-path vgatherdps/%s" % ("err %d" % r[0] if failed else "ok")
                 res["classes"][key] = res["classes"].get(key, 0) + 1
@@ -304,6 +320,9 @@ def regen_mine(ck, files):
     gen = os.path.join(vlib.COQ, "gen")
     if all(os.path.exists(os.path.join(gen, n)) and open(os.path.join(gen, n)).read() == t for n, t in files.items()):
         return None
+    # the theories the generated files import must be compiled first (after a merge their .vo may be stale or missing)
+    ck.coq_make(["theories/X86Validate/ValidateProofs.vo", "theories/EmitState/EncPathProofs.vo", "theories/EmitState/LookupProofs.vo",
+                 "theories/EmitState/EmitStateProofs.vo"])
     wgen = os.path.join(ck.work, "gen")
     shutil.rmtree(wgen, ignore_errors=True)
     os.makedirs(wgen)
@@ -379,6 +398,66 @@ def run(ck):
     sweep_pool = ThreadPoolExecutor(max_workers=1)
     sweep_future = sweep_pool.submit(vlib.sh, [impl, "sweep"], 900)     # runs while the sessions are executed
     sweep = {"pairs": 0}
+    # Compiler::finalize() again after a failed / successful finalize (separate processes: a crash must not cost coverage)
+    refin_ok = True
+    for v in range(4):
+        rcp, outp, errp = vlib.sh([impl, "probe-refinalize", str(v)], timeout=300)
+        if rcp != 0 or "END" not in outp:
+            refin_ok = False
+            summ = re.findall(r"runtime error: (.*)", errp) or re.findall(r"SUMMARY: (.*)", errp) or ["rc=%d" % rcp]
+            ck.violation("C14/compiler-refinalize-crash", "x86 Compiler: finalize() called again after a %s finalize() follows dead register-allocator pointers "
+                         "(pass data of nodes / work-reg links are not reset): %s" % (["failed (unknown virtual register)", "failed (jump to an unbound label)",
+                                                                                          "failed (serialization error)", "successful"][v], summ[0][:200]),
+                         {"command": "c14_harness probe-refinalize %d" % v, "stderr": errp[-600:]})
+    if refin_ok:
+        os.environ["C14_REFINALIZE"] = "1"      # sessions re-finalize Compiler functions too
+    else:
+        os.environ.pop("C14_REFINALIZE", None)
+    rcp, outp, errp = vlib.sh([impl, "probe-constpool-pad"], timeout=300)
+    mpp = re.search(r"PROBE constpoolpad err=(\d+) size=(\d+)/(\d+) bound=(\d)", outp)
+    os.environ.pop("C14_POOL_ATOMIC", None)
+    if rcp != 0 or not mpp:
+        ck.violation("C14/sanitizer/probe-constpool-pad", "the embed_const_pool padding probe aborted: %s" % errp[-300:], {"command": "c14_harness probe-constpool-pad"})
+    else:
+        pe, p0, p1, pb = [int(x) for x in mpp.groups()]
+        if pe != 0 and (p0 != p1 or pb):
+            ck.violation("C14/embed-const-pool-pads-before-refused-bind", "embed_const_pool(label, pool) whose bind is refused with error %d (a pending rel8 displacement does not fit) "
+                         "left its alignment padding behind: offset %d -> %d, label bound: %d" % (pe, p0, p1, pb), {"command": "c14_harness probe-constpool-pad", "output": outp.strip()})
+        elif pe != 0:
+            os.environ["C14_POOL_ATOMIC"] = "1"     # sessions may hand labels with pending fixups to embed_const_pool
+        else:
+            ck.violation("C14/embed-const-pool-bind-not-refused", "embed_const_pool bound a label whose pending rel8 fixup is 203 bytes away: " + outp.strip(), {"command": "c14_harness probe-constpool-pad"})
+    # AArch64 Compiler: a jump given register operands must be refused, not run the RA past its two scratch-register slots
+    rcj, outj, errj = vlib.sh([impl, "probe-jumpregs"], timeout=300)
+    mj = re.search(r"PROBE jumpregs (\d+) (\d+)", outj)
+    if rcj != 0 or not mj:
+        summ = re.findall(r"runtime error: (.*)", errj) or re.findall(r"SUMMARY: (.*)", errj) or ["rc=%d" % rcj]
+        ck.violation("C14/a64-jump-with-register-operands-ra-oob", "AArch64 Compiler: `b w0, w1, w2` (virtual registers instead of a label; a64 validation is a no-op) is accepted and "
+                     "finalize() reads _scratch_reg_indexes[2] of a two-element array in RACFGBuilderT::run (racfgbuilder_p.h): %s" % summ[0][:200],
+                     {"command": "c14_harness probe-jumpregs", "stderr": errj[-600:]})
+    elif int(mj.group(1)) == 0 and int(mj.group(2)) == 0:
+        ck.violation("C14/a64-jump-with-register-operands-accepted", "AArch64 Compiler: `b w0, w1, w2` was accepted and finalized without an error: " + outj.strip(),
+                     {"command": "c14_harness probe-jumpregs"})
+    # deterministic x86 sweep: instructions / operand forms without an EVEX encoding must refuse registers 16..31
+    rcv, outv, errv = vlib.sh([impl, "sweep-vexonly"], timeout=600)
+    mv = re.search(r"V vexonly insts=(\d+) forms=(\d+) accepted=(\d+)", outv)
+    os.environ.pop("C14_VEXONLY", None)
+    vexonly = {"ran": bool(mv)}
+    if rcv != 0 or not mv:
+        ck.violation("C14/sanitizer/sweep-vexonly", "the x86 VEX-only sweep aborted: %s" % errv[-300:], {"command": "c14_harness sweep-vexonly"})
+    else:
+        wl = [l.split() for l in outv.split("\n") if l.startswith("W ")]
+        vexonly.update({"vex_only_instructions": int(mv.group(1)), "accepted_forms": int(mv.group(2)), "positions_accepting_ids_16_31": int(mv.group(3)),
+                        "instructions_accepting": len(set(t[1] for t in wl))})
+        if wl:
+            ex = ["%s %s -> %s" % (t[2], t[3], " ".join(t[4:])) for t in wl[:12]]
+            ck.violation("C14/x86-vex-only-accepts-evex-only-register",
+                         "x86 Assembler with strict validation: %d instructions without an EVEX encoding (%d register positions in %d accepted forms) accept a vector "
+                         "register id of 16..31 and emit their VEX opcode under an EVEX prefix (an undefined or a different instruction), e.g. %s"
+                         % (len(set(t[1] for t in wl)), len(wl), int(mv.group(2)), "; ".join(ex[:4])),
+                         {"command": "c14_harness sweep-vexonly", "examples": ex})
+        else:
+            os.environ["C14_VEXONLY"] = "1"     # the VEX gather scenario hands ids 16..31 to the three-operand form (the model refuses them)
     nsess = 4000 if ck.tier == "quick" else 100000
     shards = 16 if ck.tier == "quick" else 64
     per = (nsess + shards - 1) // shards
@@ -480,7 +559,7 @@ def run(ck):
          "calls_by_kind": total.get("by_kind"), "sessions_by_config": total.get("by_cfg"), "instruction_classes": total.get("classes"),
          "error_codes_seen": {str(k): v for k, v in sorted(total.get("err_codes", {}).items())},
          "model_vs_impl_disagreements": len(total["disagree"]), "traces_validated_against_impl": total["calls"],
-         "a64_register_id_sweep": sweep, "implementation_probes": total.get("probes"),
+         "a64_register_id_sweep": sweep, "x86_vex_only_sweep": vexonly, "implementation_probes": total.get("probes"), "compiler_refinalize_in_sessions": refin_ok,
          "lookup_sites": tinfo["sites"], "lookup_tables": tinfo["tables"], "a64_encoding_sites": tinfo["a64_encoding_sites"],
          "unsupported": {"a64_encodings_without_single_EncodingData_table": tinfo["a64_encodings_unsupported"],
                          "x86 opcode_mm_table look-up for x87 rows and for opcodes built from constants inside _emit": "not data-driven; constants have mm < 16 by the Opcode enum",
